@@ -21,6 +21,7 @@ from textwrap import dedent, indent
 import dis
 from modelx.core.base import (
     LazyEval, get_mixin_slots, Interface)
+from modelx.core.util import quote_docstring
 
 import asttokens
 
@@ -191,7 +192,7 @@ def replace_docstring(source: str, docstr: str, insert_indents=False):
         raise RuntimeError("FunctionDef not found")
 
     first_stmt = node.body[0]
-    docstr = '"""' + docstr + '"""'
+    docstr = quote_docstring(docstr)
     prev_token = atok.tokens[first_stmt.first_token.index - 1]
 
     if prev_token.type == token.INDENT:     # compound statements
